@@ -25,7 +25,14 @@ def combo_key(c):
 
 
 def case_strategy(combo_list):
-    return st.fixed_dictionaries({"combo": st.sampled_from(combo_list), "pres": gm.presentations()})
+    """stratified by structure type (fcc, bcc, hcp, diamond, sc, rocksalt, ...): types with few materials (wurtzite, rutile,
+    perovskite ...) would otherwise be starved by the ~40 fcc/bcc/hcp elements"""
+    by_type = {}
+    for c in combo_list:
+        t = gm.library()[c["mat"]][0] if c["mat"] in gm.library() else "monolayer"
+        by_type.setdefault(t, []).append(c)
+    types = sorted(by_type)
+    return st.fixed_dictionaries({"combo": st.sampled_from(types).flatmap(lambda t: st.sampled_from(by_type[t])), "pres": gm.presentations()})
 
 
 def item_strategy(combo):
